@@ -2,6 +2,8 @@
 import Driver.OpsH
 import NflVerif.Model.Gauss
 import NflVerif.Spec.GaussSpec
+import NflVerif.Model.GaussParams
+import NflVerif.Model.GaussLife
 namespace Driver
 open Nfl.Gauss
 
@@ -99,6 +101,60 @@ def traceOK (wp bufLen : Nat) : Nat → Nat → List Ev → Bool
     e.req == req && e.pos == pos && e.seen ≤ e.used && e.pos + e.seen ≤ bufLen && e.pos + e.used ≤ bufLen &&
     (if e.pos + e.used + wp ≥ bufLen then traceOK wp bufLen (req + 1) 0 t else traceOK wp bufLen req (e.pos + e.used) t)
 
+/-! ### coverage classes of the constructor's parameter space -/
+def isPow2 (m : Nat) : Bool := m != 0 && (m &&& (m - 1)) == 0
+
+def mClass (m : Nat) : String :=
+  if isPow2 m then "2^j" else if isPow2 (m + 1) || isPow2 (m - 1) then "2^j±1"
+  else if [10, 100, 1000, 10000, 100000, 1000000, 10000000].contains m then "10^j"
+  else if m % 2 == 0 then "other-even" else "other-odd"
+
+def lamClass (l : Nat) : String := if l % 16 == 0 then "16|λ" else if l % 8 == 0 then "8|λ" else "8∤λ"
+
+def sigmaClass (sn sd : Nat) : String :=
+  (if sn < sd then "<1" else if sn < 10 * sd then "<10" else if sn < 100 * sd then "<100" else "≥100") ++
+    (if sd == 1 then "" else if sn * 100 % sd == 0 then "(1/100)" else "(fine)")
+
+def centreClass (cn : Int) (cd : Nat) (ctor : Int) : String :=
+  (if cn % (cd : Int) == 0 then "int" else if cn * 2 % (cd : Int) == 0 then "half" else if isPow2 cd then "dyadic" else "non-dyadic") ++
+    (if ctor == 2 then "/mpfr256" else if ctor == 1 then "/mpfr" else "")
+
+def wordBitsOf (W : Nat) : Nat := if W == 256 then 8 else if W == 65536 then 16 else 0
+
+/-! ### lifecycles (`glc`) -/
+open Nfl.Gauss.Life in
+def parseEvts : Nat → List Int → Option (List (Evt × Nat))
+  | 0, [] => some []
+  | 0, _ => none
+  | n + 1, op :: obj :: thr :: arg :: rest =>
+    (parseEvts n rest).map fun l => ({ op := op.toNat, obj := obj.toNat, thr := thr.toNat }, arg.toNat) :: l
+  | _, _ => none
+
+open Nfl.Gauss.Life in
+/-- how construction and destruction threads relate, over all samplers of the lifecycle -/
+def lifeRelation (evs : List Evt) : String :=
+  let rec go (l : List Evt) (ctorThr : List (Nat × Nat)) (ended : List Nat) (acc : Nat) : Nat :=
+    match l with
+    | [] => acc
+    | e :: t =>
+      if e.op == 0 then go t ((e.obj, e.thr) :: ctorThr.filter (·.1 != e.obj)) (ended.filter (· != e.thr)) acc
+      else if e.op == 3 then go t ctorThr (e.thr :: ended) acc
+      else if e.op == 2 then
+        match ctorThr.find? (·.1 == e.obj) with
+        | some (_, tc) =>
+          let k := if tc == 9 || ended.contains tc then 2 else if tc != e.thr then 1 else 0
+          go t ctorThr ended (max acc k)
+        | none => go t ctorThr ended acc
+      else go t ctorThr (ended.filter (· != e.thr)) acc
+  match go evs [] [] 0 with
+  | 0 => "ctor-thread=dtor-thread" | 1 => "dtor-on-other-thread" | _ => "ctor-thread-ended-before-dtor"
+
+open Nfl.Gauss.Life in
+def lifeOrder (evs : List Evt) : String :=
+  let cs := (evs.filter (·.op == 0)).map (·.obj)
+  let ds := (evs.filter (·.op == 2)).map (·.obj)
+  if cs.length ≤ 1 then "single" else if cs == ds then "fifo" else if cs == ds.reverse then "lifo" else "mixed"
+
 def gaussHandlers : List (String × Handler) := [
   ("gtab", {
     run := fun a => do
@@ -191,19 +247,52 @@ def gaussHandlers : List (String × Handler) := [
       | _ => pure none }),
   ("gtv", {
     run := fun a => pure (match a with
-      | [W, lam, _, s, _, _] =>
+      | [W, _, m, _, _, cn, cd, ctor] =>
         some { model := [], specOk := true, relational := true,
-               cls := s!"W={W}:λ={if lam < 64 then "<64" else if lam < 128 then "<128" else if lam < 256 then "<256" else "256"}:σ={if s < 1000 then "<1" else if s < 10000 then "<10" else if s < 100000 then "<100" else "≥100"}" }
+               cls := s!"W={W}:m={mClass m.toNat}:c={centreClass cn cd.toNat ctor}" }
       | _ => none),
-    spec := fun _ impl => pure (match impl with
-      | [ratio, _, _, hyp] => some (0 ≤ ratio && ratio ≤ 1000000 && hyp == 1)
+    spec := fun a impl => pure (match a, impl with
+      | [W, _, m, _, sd, _, cd, _], [ratio, wp, _, hyp, bits] =>
+        some (1 ≤ m && 1 ≤ sd && 1 ≤ cd && 0 ≤ ratio && ratio ≤ 1000000 && hyp == 1 && bits == wp * wordBitsOf W.toNat)
+      | _, _ => none) }),
+  ("gpar", {
+    -- the derived parameters of a live object against the exact-integer model of `init()` (Model/GaussParams.lean)
+    run := fun a => pure (match a with
+      | [W, lam, m, sn, sd, wp, nb, bits] =>
+        some { model := [if paramsOK (wordBitsOf W.toNat) lam.toNat m.toNat sn.toNat sd.toNat wp.toNat nb.toNat bits.toNat then 1 else 0],
+               specOk := true, cls := s!"W={W}:{lamClass lam.toNat}:σ={sigmaClass sn.toNat sd.toNat}" }
+      | _ => none),
+    spec := fun a _ => pure (match a with
+      | [W, lam, m, sn, sd, wp, nb, bits] =>
+        some (wordBitsOf W.toNat != 0 && 32 ≤ lam && 1 ≤ m && 0 < sn && 0 < sd && nb % 2 == 1 && 0 < wp && bits == wp * wordBitsOf W.toNat)
       | _ => none) }),
   ("glife", {
     run := fun a => pure (match a with
-      | [W, d, lam, _, _, _, ctor] => some { model := [], specOk := true, relational := true, cls := s!"W={W}:depth={d}:λ={lam}:ctor={ctor}" }
+      | [W, d, _, m, _, _, _, _, ctor] => some { model := [], specOk := true, relational := true, cls := s!"W={W}:depth={d}:m={mClass m.toNat}:ctor={ctor}" }
       | _ => none),
     spec := fun a impl => pure (match a, impl with
-      | [_, d, _, _, _, _, _], [nb, wp, hyp] => some (nb % 2 == 1 && d ≤ wp && hyp == 1)
+      | [W, d, _, _, _, _, _, _, _], [nb, wp, hyp, bits] => some (nb % 2 == 1 && d ≤ wp && hyp == 1 && bits == wp * wordBitsOf W.toNat)
+      | _, _ => none) }),
+  ("glc", {
+    -- a lifecycle over threads: the allocation model's residue (0 by `C11.lifecycle_releases_all`) against the allocator's
+    run := fun a => pure (match a with
+      | nobj :: nev :: rest =>
+        let nobj := nobj.toNat
+        match parseEvts nev.toNat (rest.drop (9 * nobj)) with
+        | some evs =>
+          let es := evs.map (·.1)
+          let cls := s!"samplers={nobj}:{lifeRelation es}:{lifeOrder es}"
+          match Nfl.Gauss.Life.run .inCtor 1 1 .init es with
+          | some s =>
+            if Nfl.Gauss.Life.allDead nobj s && es.all (fun e => e.obj < nobj || e.op == 3) then
+              some { model := [Int.ofNat (Nfl.Gauss.Life.residual 10 nobj s), 0, 1], specOk := true, cls := cls }
+            else some { model := [], specOk := true, cls := "model-rejects:sampler-left-alive" }
+          | none => some { model := [], specOk := true, cls := "model-rejects:ill-formed" }
+        | none => none
+      | _ => none),
+    spec := fun a impl => pure (match a, impl with
+      | nobj :: nev :: rest, [blocks, bytes, hyp] =>
+        some (rest.length == 9 * nobj.toNat + 4 * nev.toNat && blocks == 0 && bytes == 0 && hyp == 1)
       | _, _ => none) })
 ]
 
